@@ -35,7 +35,7 @@ SHARD_TIMEOUT = {"quick": 900, "thorough": 7200}
 
 
 def plan(tier, seed):
-    return [{"vsys": list(s), "mode": m} for s in R.ALL_SYSTEMS for m in ("mp", "f64", "numpy", "awkward")]
+    return [{"vsys": list(s), "mode": m} for s in R.ALL_SYSTEMS for m in ("mp", "f64", "numpy", "awkward", "record")]
 
 
 def _temporal_untouched(J, cell, law, V, W_, det):
